@@ -14,7 +14,8 @@ trap 'rm -rf "$bin" "$ovl"' EXIT
 tags="verif"; ovlflags=""
 case "$id" in C18) tags="verif decimal_pure_go"; ovlflags="--points" ;; esac
 python3 "$here/scripts/overlay.py" "$ovl" $ovlflags || exit 2
-if ! (cd "$here/mc" && go build -tags "$tags" -overlay "$ovl/overlay.json" -o "$bin" . ) 2> "$bin.err"; then
+mf="$(modflag "$ovl")"
+if ! (cd "$here/mc" && go build $mf -tags "$tags" -overlay "$ovl/overlay.json" -o "$bin" . ) 2> "$bin.err"; then
   echo "HARNESS-ERROR: build failed" >&2; cat "$bin.err" >&2; rm -f "$bin.err"; exit 2
 fi
 rm -f "$bin.err"
